@@ -12,12 +12,12 @@ META = {
         "them with their two arguments, that the table-less functions have the reference shape, that the checksum "
         "distance counts unequal positions, and that compare_with_config is the sum of the four same-typed part "
         "comparisons with the length term exactly in Default mode.  The body-distance kernels are tied together by "
-        "sibling agreement of their normalised operation DAGs (pseudo-SIMD 32/64, SSE2, SSE4.1, AVX2) and their "
+        "sibling agreement of their normalised operation DAGs (pseudo-SIMD 32/64, SSE2, SSE4.1, AVX2, and NEON on aarch64) and their "
         "load coverage; the truth of the shared bit-sliced arithmetic is NOT decided (it would need evaluating the "
         "DAG on dibit pairs, i.e. execution)."
     ),
     "trusted_base": ["rustc nightly front end and constant evaluator", "core::arch intrinsics semantics (names only)"],
-    "assumptions": ["x86_64 target; NEON/WASM/portable-SIMD kernels are not compiled here"],
+    "assumptions": ["analysed targets: x86_64 and aarch64 (NEON kernel, type-checked with -Zbuild-std, never executed), i686 in the thorough tier; portable-SIMD kernels do not compile with the installed nightly and are not analysed"],
     "not_decided": ["that the shared body-distance kernel computes sum |x-y| with 3->6", "a slip made identically in all five kernels"],
 }
 
